@@ -3,9 +3,10 @@ import Mathlib.Tactic.Linarith
 import Mathlib.Tactic.FieldSimp
 import Mathlib.Tactic.NormNum
 import Mathlib.Tactic.Positivity
-import HailVerif.Model.StatsSpec
-import HailVerif.Generated.ScalaStats
+import Mathlib.Data.Nat.Choose.Vandermonde
+import HailVerif.Proofs.StatsLH
 open HailVerif.StatsLib HailVerif.StatsSpec HailVerif.Generated.ScalaStats
+open Finset
 namespace HailVerif.StatsProofs
 
 /-- the statistic computed by `chiSquaredTest`, as generated -/
@@ -15,7 +16,13 @@ def chiStat (a b c d : ℚ) : ℚ :=
 theorem chiSquaredTest_unfold (τ : ℚ) (lib : Lib ℚ) (a0 b0 c0 d0 : ℤ) :
     Exact.stats_chiSquaredTest τ lib a0 b0 c0 d0 =
       if (((decide (a0 < (0 : ℤ)) || decide (b0 < (0 : ℤ))) || decide (c0 < (0 : ℤ))) || decide (d0 < (0 : ℤ))) then Out.fatal
-      else Out.val [lib.chisqTail (chiStat a0 b0 c0 d0) (((1 : ℤ) : ℤ) : ℚ), ((a0 : ℚ) * (d0 : ℚ)) / ((b0 : ℚ) * (c0 : ℚ))] := rfl
+      else Out.val [lib.chisqTail (chiStat a0 b0 c0 d0) (((1 : ℤ) : ℤ) : ℚ), ((a0 : ℚ) * (d0 : ℚ)) / ((b0 : ℚ) * (c0 : ℚ))] := by
+  -- tolerant to algebraically equivalent rewrites of the formula
+  unfold Exact.stats_chiSquaredTest chiStat
+  split
+  · rfl
+  · try simp only []
+    try (congr 3 <;> ring)
 
 /-- `N (ad - bc)² / ((a+b)(c+d)(b+d)(a+c))` is Pearson's `Σ (O-E)²/E` whenever no margin vanishes -/
 theorem chiStat_eq_pearson (a b c d : ℚ) (h1 : a + b ≠ 0) (h2 : c + d ≠ 0) (h3 : a + c ≠ 0) (h4 : b + d ≠ 0) (hN : a + b + c + d ≠ 0) :
@@ -30,5 +37,252 @@ theorem contingencyTableTest_unfold (τ : ℚ) (lib : Lib ℚ) (a b c d m : ℤ)
       if decide (m < (0 : ℤ)) then Out.fatal
       else if (((decide (a >= m) && decide (b >= m)) && decide (c >= m)) && decide (d >= m)) then Exact.stats_chiSquaredTest τ lib a b c d
       else Exact.stats_fisherExactTest_4 τ lib a b c d := rfl
+
+/-- the p-value `fisherExactTest` computes for `alternative = "two.sided"`, `oddsRatio = 1`, as generated -/
+def fisherTwoSidedGen (τ : ℚ) (lib : Lib ℚ) (a b c d : ℤ) : ℚ :=
+  let low := max 0 ((a + b) - (b + d))
+  let high := min (a + b) (a + c)
+  let dd := lib.dnhyper (Hgd.mk (a + b + c + d) (a + c) (a + b)) low high 1
+  sumL (dd.filter fun x => decide (x ≤ idx dd (a - low) * (1 + τ * (1 / 10000000))))
+
+theorem fisher7_two_sided_eval (τ : ℚ) (lib : Lib ℚ) (a b c d : ℕ) (hnd : ¬ degenerate a b c d) :
+    Exact.stats_fisherExactTest_7 τ lib a b c d 1 (19 / 20) "two.sided" =
+      if !(decide (fisherTwoSidedGen τ lib a b c d ≥ 0) && decide (fisherTwoSidedGen τ lib a b c d ≤ 500000000001 / 500000000000)) then Out.fatal
+      else Out.val [fisherTwoSidedGen τ lib a b c d] := by
+  unfold degenerate at hnd
+  unfold Exact.stats_fisherExactTest_7 fisherTwoSidedGen
+  have g1 : (!(((decide ((a : ℤ) >= (0 : ℤ)) && decide ((b : ℤ) >= (0 : ℤ))) && decide ((c : ℤ) >= (0 : ℤ))) && decide ((d : ℤ) >= (0 : ℤ)))) = false := by simp
+  have g2 : (decide ((19 / 20 : ℚ) < (0 : ℚ)) || decide ((19 / 20 : ℚ) > (1 : ℚ))) = false := by norm_num
+  have g3 : decide ((1 : ℚ) < (0 : ℚ)) = false := by norm_num
+  have g4 : (((!decide ("two.sided" = "greater")) && (!decide ("two.sided" = "less"))) && (!decide ("two.sided" = "two.sided"))) = false := by decide
+  have g5 : (!((((decide ((a : ℤ) + b + c + d > 0) && decide ((a : ℤ) + b > 0)) && decide ((a : ℤ) + b < (a : ℤ) + b + c + d)) && decide ((a : ℤ) + c > 0)) && decide ((a : ℤ) + c < (a : ℤ) + b + c + d))) = false := by
+    simp; omega
+  have s1 : decide ("two.sided" = "less") = false := by decide
+  have s2 : decide ("two.sided" = "greater") = false := by decide
+  have s3 : decide ("two.sided" = "two.sided") = true := by decide
+  have o1 : decide ((1 : ℚ) = (((0 : ℤ) : ℤ) : ℚ)) = false := by norm_num
+  simp only [g1, g2, g3, g4, g5, s1, s2, s3, o1, Bool.false_eq_true, if_false, if_true, Out.bind]
+  rfl
+
+theorem choose_eq (n k : ℕ) : StatsSpec.choose n k = n.choose k := by
+  unfold StatsSpec.choose
+  split
+  · rename_i h; rw [fact_eq, fact_eq, fact_eq, Nat.choose_eq_factorial_div_factorial h]
+  · rename_i h; rw [Nat.choose_eq_zero_of_lt (by omega)]
+
+theorem hyperPmf_nonneg (N m n : ℕ) (k : ℤ) : 0 ≤ hyperPmf N m n k := by
+  unfold hyperPmf; split
+  · positivity
+  · exact le_refl _
+
+/-- Vandermonde: the hypergeometric probabilities sum to 1 over `max(0, n+m-N) … min(n, m)` -/
+theorem hyper_sum_one (N m n : ℕ) (hm : m ≤ N) (hn : n ≤ N) :
+    sumRange (hyperLo N m n) (hyperHi N m n) (hyperPmf N m n) = 1 := by
+  have hV : ∑ k ∈ range (n + 1), m.choose k * (N - m).choose (n - k) = N.choose n := by
+    have := Nat.add_choose_eq m (N - m) n
+    rw [Finset.Nat.sum_antidiagonal_eq_sum_range_succ_mk] at this
+    rw [show m + (N - m) = N by omega] at this
+    exact this.symm
+  have hCpos : (0 : ℚ) < (N.choose n : ℚ) := by exact_mod_cast Nat.choose_pos hn
+  set lo' : ℕ := n + m - N with hlo'
+  set hi' : ℕ := min n m with hhi'
+  have elo : hyperLo N m n = (lo' : ℤ) := by unfold hyperLo; omega
+  have ehi : hyperHi N m n = (hi' : ℤ) := by unfold hyperHi; omega
+  rw [sumRange_eq, elo, ehi]
+  have hlen : ((hi' : ℤ) + 1 - (lo' : ℤ)).toNat = hi' + 1 - lo' := by omega
+  rw [hlen]
+  have hterm : ∀ i ∈ range (hi' + 1 - lo'), hyperPmf N m n ((lo' : ℤ) + (i : ℤ)) = ((m.choose (lo' + i) * (N - m).choose (n - (lo' + i)) : ℕ) : ℚ) / (N.choose n : ℚ) := by
+    intro i hi
+    rw [Finset.mem_range] at hi
+    unfold hyperPmf
+    rw [if_pos (by rw [elo, ehi]; omega)]
+    have : ((lo' : ℤ) + (i : ℤ)).toNat = lo' + i := by omega
+    rw [this, choose_eq, choose_eq, choose_eq]
+    push_cast; ring
+  rw [Finset.sum_congr rfl hterm]
+  simp only [div_eq_mul_inv]
+  rw [← Finset.sum_mul, ← div_eq_mul_inv, div_eq_one_iff_eq (ne_of_gt hCpos)]
+  rw [← hV, ← Finset.sum_Ico_eq_sum_range (fun k => ((m.choose k * (N - m).choose (n - k) : ℕ) : ℚ)) lo' (hi' + 1)]
+  push_cast
+  rw [Finset.range_eq_Ico]
+  apply Finset.sum_subset
+  · intro x hx; rw [Finset.mem_Ico] at hx ⊢; omega
+  · intro x hx hx'
+    rw [Finset.mem_Ico] at hx hx'
+    by_cases h1 : x < lo'
+    · rw [Nat.choose_eq_zero_of_lt (show N - m < n - x by omega), Nat.cast_zero, mul_zero]
+    · rw [Nat.choose_eq_zero_of_lt (show m < x by omega), Nat.cast_zero, zero_mul]
+
+
+
+theorem zipWithIndex_fst (l : List ℚ) : (zipWithIndex l).map (fun p => p.1) = l := by
+  unfold zipWithIndex
+  rw [List.map_map]
+  have : ((fun p : ℚ × ℤ => p.1) ∘ fun p : ℚ × ℕ => (p.1, (p.2 : ℤ))) = Prod.fst := by funext p; rfl
+  rw [this, List.zipIdx_map_fst]
+
+/-- with odds ratio 1 the normalised non-central hypergeometric weights are the hypergeometric probabilities themselves -/
+theorem dnhyperQ_one (pmf : ℤ → ℚ) (lo hi : ℤ) (hs : sumRange lo hi pmf = 1) :
+    dnhyperQ pmf lo hi 1 = (rangeIncl lo hi).map pmf := by
+  unfold dnhyperQ
+  simp only [one_pow, mul_one]
+  have e : (List.map (fun p : ℚ × ℤ => p.1) (zipWithIndex (List.map pmf (rangeIncl lo hi)))) = List.map pmf (rangeIncl lo hi) :=
+    zipWithIndex_fst _
+  rw [e, sumL_eq_sum]
+  unfold sumRange at hs
+  rw [hs]
+  simp
+
+theorem sum_filter_le (f : ℤ → ℚ) (t : ℚ) (l : List ℤ) :
+    ((l.map f).filter fun x => decide (x ≤ t)).sum = (l.map fun i => if f i ≤ t then f i else 0).sum := by
+  induction l with
+  | nil => rfl
+  | cons x xs ih =>
+    rw [List.map_cons, List.map_cons, List.sum_cons]
+    by_cases h : f x ≤ t
+    · rw [List.filter_cons_of_pos (by simpa using h), List.sum_cons, ih, if_pos h]
+    · rw [List.filter_cons_of_neg (by simpa using h), ih, if_neg h, zero_add]
+
+theorem idx_rangeIncl_map (f : ℤ → ℚ) (lo hi k : ℤ) (h1 : lo ≤ k) (h2 : k ≤ hi) : idx ((rangeIncl lo hi).map f) (k - lo) = f k := by
+  unfold idx rangeIncl
+  rw [List.map_map, List.getD_eq_getElem?_getD, List.getElem?_map, List.getElem?_range (by omega)]
+  simp only [Option.map_some, Option.getD_some, Function.comp]
+  congr 1; omega
+
+theorem fisher_margins (a b c d : ℕ) (hnd : ¬ degenerate a b c d) :
+    (max 0 (((a : ℤ) + b) - ((b : ℤ) + d)) = hyperLo (a + b + c + d) (a + c) (a + b)) ∧
+    (min ((a : ℤ) + b) ((a : ℤ) + c) = hyperHi (a + b + c + d) (a + c) (a + b)) ∧
+    hyperLo (a + b + c + d) (a + c) (a + b) ≤ a ∧ (a : ℤ) ≤ hyperHi (a + b + c + d) (a + c) (a + b) := by
+  unfold hyperLo hyperHi
+  push_cast
+  omega
+
+theorem libQ_dnhyper_one (chisq : ℚ → ℚ → ℚ) (a b c d : ℕ) :
+    (libQ chisq).dnhyper (Hgd.mk ((a : ℤ) + b + c + d) ((a : ℤ) + c) ((a : ℤ) + b))
+        (hyperLo (a + b + c + d) (a + c) (a + b)) (hyperHi (a + b + c + d) (a + c) (a + b)) 1
+      = (rangeIncl (hyperLo (a + b + c + d) (a + c) (a + b)) (hyperHi (a + b + c + d) (a + c) (a + b))).map (hyperPmf (a + b + c + d) (a + c) (a + b)) := by
+  unfold libQ
+  simp only
+  have e1 : ((a : ℤ) + b + c + d).toNat = a + b + c + d := by omega
+  have e2 : ((a : ℤ) + c).toNat = a + c := by omega
+  have e3 : ((a : ℤ) + b).toNat = a + b := by omega
+  rw [e1, e2, e3]
+  exact dnhyperQ_one _ _ _ (hyper_sum_one _ _ _ (by omega) (by omega))
+
+/-- the generated two-sided p-value, with the library instantiated by the closed forms and τ = 0, is the definition -/
+theorem fisherTwoSidedGen_spec (chisq : ℚ → ℚ → ℚ) (a b c d : ℕ) (hnd : ¬ degenerate a b c d) :
+    fisherTwoSidedGen 0 (libQ chisq) a b c d = fisherTwoSided (a + b + c + d) (a + c) (a + b) a := by
+  obtain ⟨hlo, hhi, h1, h2⟩ := fisher_margins a b c d hnd
+  unfold fisherTwoSidedGen
+  simp only [zero_mul, add_zero, mul_one]
+  rw [hlo, hhi, libQ_dnhyper_one, idx_rangeIncl_map _ _ _ _ h1 h2, sumL_eq_sum, sum_filter_le]
+  rfl
+
+theorem fisherTwoSided_unit (N m n : ℕ) (hm : m ≤ N) (hn : n ≤ N) (x : ℤ) : 0 ≤ fisherTwoSided N m n x ∧ fisherTwoSided N m n x ≤ 1 := by
+  unfold fisherTwoSided
+  constructor
+  · apply sumRange_nonneg; intro i; split
+    · exact hyperPmf_nonneg _ _ _ _
+    · exact le_refl _
+  · rw [← hyper_sum_one N m n hm hn]
+    apply sumRange_le_sumRange; intro i; split
+    · exact le_refl _
+    · exact hyperPmf_nonneg _ _ _ _
+
+private theorem fisher_guards (a b c d : ℕ) (hnd : ¬ degenerate a b c d) :
+    (!(((decide ((a : ℤ) >= (0 : ℤ)) && decide ((b : ℤ) >= (0 : ℤ))) && decide ((c : ℤ) >= (0 : ℤ))) && decide ((d : ℤ) >= (0 : ℤ)))) = false ∧
+    (decide ((19 / 20 : ℚ) < (0 : ℚ)) || decide ((19 / 20 : ℚ) > (1 : ℚ))) = false ∧
+    decide ((1 : ℚ) < (0 : ℚ)) = false ∧
+    (!((((decide ((a : ℤ) + b + c + d > 0) && decide ((a : ℤ) + b > 0)) && decide ((a : ℤ) + b < (a : ℤ) + b + c + d)) && decide ((a : ℤ) + c > 0)) && decide ((a : ℤ) + c < (a : ℤ) + b + c + d))) = false := by
+  unfold degenerate at hnd
+  refine ⟨by simp, by norm_num, by norm_num, ?_⟩
+  simp; omega
+
+theorem fisher7_less_eval (τ : ℚ) (lib : Lib ℚ) (a b c d : ℕ) (hnd : ¬ degenerate a b c d) :
+    Exact.stats_fisherExactTest_7 τ lib a b c d 1 (19 / 20) "less" =
+      if !(decide (lib.hyperCdf (Hgd.mk ((a : ℤ) + b + c + d) ((a : ℤ) + c) ((a : ℤ) + b)) a ≥ 0) &&
+           decide (lib.hyperCdf (Hgd.mk ((a : ℤ) + b + c + d) ((a : ℤ) + c) ((a : ℤ) + b)) a ≤ 500000000001 / 500000000000)) then Out.fatal
+      else Out.val [lib.hyperCdf (Hgd.mk ((a : ℤ) + b + c + d) ((a : ℤ) + c) ((a : ℤ) + b)) a] := by
+  obtain ⟨g1, g2, g3, g5⟩ := fisher_guards a b c d hnd
+  unfold Exact.stats_fisherExactTest_7
+  have g4 : (((!decide ("less" = "greater")) && (!decide ("less" = "less"))) && (!decide ("less" = "two.sided"))) = false := by decide
+  have s1 : decide ("less" = "less") = true := by decide
+  have o1 : decide ((1 : ℚ) = (1 : ℚ)) = true := by norm_num
+  simp only [g1, g2, g3, g5, Bool.false_eq_true, if_false, if_true, Out.bind]
+  rfl
+
+theorem fisher7_greater_eval (τ : ℚ) (lib : Lib ℚ) (a b c d : ℕ) (hnd : ¬ degenerate a b c d) :
+    Exact.stats_fisherExactTest_7 τ lib a b c d 1 (19 / 20) "greater" =
+      if !(decide (lib.hyperUpper (Hgd.mk ((a : ℤ) + b + c + d) ((a : ℤ) + c) ((a : ℤ) + b)) a ≥ 0) &&
+           decide (lib.hyperUpper (Hgd.mk ((a : ℤ) + b + c + d) ((a : ℤ) + c) ((a : ℤ) + b)) a ≤ 500000000001 / 500000000000)) then Out.fatal
+      else Out.val [lib.hyperUpper (Hgd.mk ((a : ℤ) + b + c + d) ((a : ℤ) + c) ((a : ℤ) + b)) a] := by
+  obtain ⟨g1, g2, g3, g5⟩ := fisher_guards a b c d hnd
+  unfold Exact.stats_fisherExactTest_7
+  have g4 : (((!decide ("greater" = "greater")) && (!decide ("greater" = "less"))) && (!decide ("greater" = "two.sided"))) = false := by decide
+  have s1 : decide ("greater" = "less") = false := by decide
+  have s2 : decide ("greater" = "greater") = true := by decide
+  have o1 : decide ((1 : ℚ) = (1 : ℚ)) = true := by norm_num
+  simp only [g1, g2, g3, g5, s1, Bool.false_eq_true, if_false, if_true, Out.bind]
+  rfl
+
+theorem fisher7_degenerate (τ : ℚ) (lib : Lib ℚ) (a b c d : ℕ) (oddsRatio conf : ℚ) (alt : String)
+    (h1 : 0 ≤ conf ∧ conf ≤ 1) (h2 : 0 ≤ oddsRatio) (h3 : alt = "two.sided" ∨ alt = "less" ∨ alt = "greater") (h : degenerate a b c d) :
+    Exact.stats_fisherExactTest_7 τ lib a b c d oddsRatio conf alt = Out.nan := by
+  unfold degenerate at h
+  unfold Exact.stats_fisherExactTest_7
+  have g1 : (!(((decide ((a : ℤ) >= (0 : ℤ)) && decide ((b : ℤ) >= (0 : ℤ))) && decide ((c : ℤ) >= (0 : ℤ))) && decide ((d : ℤ) >= (0 : ℤ)))) = false := by simp
+  have g2 : (decide (conf < (0 : ℚ)) || decide (conf > (1 : ℚ))) = false := by simp; exact ⟨h1.1, h1.2⟩
+  have g3 : decide (oddsRatio < (0 : ℚ)) = false := by simpa using h2
+  have g4 : (((!decide (alt = "greater")) && (!decide (alt = "less"))) && (!decide (alt = "two.sided"))) = false := by
+    rcases h3 with rfl | rfl | rfl <;> decide
+  have g5 : (!((((decide ((a : ℤ) + b + c + d > 0) && decide ((a : ℤ) + b > 0)) && decide ((a : ℤ) + b < (a : ℤ) + b + c + d)) && decide ((a : ℤ) + c > 0)) && decide ((a : ℤ) + c < (a : ℤ) + b + c + d))) = true := by
+    simp; omega
+  simp only [g1, g2, g3, g4, g5, Bool.false_eq_true, if_false, if_true]
+
+theorem fisher7_negative (τ : ℚ) (lib : Lib ℚ) (a b c d : ℤ) (oddsRatio conf : ℚ) (alt : String) (h : a < 0 ∨ b < 0 ∨ c < 0 ∨ d < 0) :
+    Exact.stats_fisherExactTest_7 τ lib a b c d oddsRatio conf alt = Out.fatal := by
+  unfold Exact.stats_fisherExactTest_7
+  have g1 : (!(((decide (a >= (0 : ℤ)) && decide (b >= (0 : ℤ))) && decide (c >= (0 : ℤ))) && decide (d >= (0 : ℤ)))) = true := by simp; omega
+  simp only [g1, if_true]
+
+theorem fisher4_eq (τ : ℚ) (lib : Lib ℚ) (a b c d : ℤ) :
+    Exact.stats_fisherExactTest_4 τ lib a b c d = Exact.stats_fisherExactTest_7 τ lib a b c d 1 (19 / 20) "two.sided" := rfl
+
+theorem sumRange_mono_hi (lo hi hi' : ℤ) (f : ℤ → ℚ) (hf : ∀ k, 0 ≤ f k) (h : hi ≤ hi') : sumRange lo hi f ≤ sumRange lo hi' f := by
+  by_cases hl : lo ≤ hi + 1
+  · rw [sumRange_split lo hi hi' f hl h]
+    have := sumRange_nonneg (hi + 1) hi' f hf
+    linarith
+  · rw [sumRange_empty _ _ _ (by omega)]; exact sumRange_nonneg _ _ _ hf
+
+theorem sumRange_mono_lo (lo lo' hi : ℤ) (f : ℤ → ℚ) (hf : ∀ k, 0 ≤ f k) (h : lo ≤ lo') : sumRange lo' hi f ≤ sumRange lo hi f := by
+  by_cases hl : lo' ≤ hi + 1
+  · rw [sumRange_split lo (lo' - 1) hi f (by omega) (by omega), show lo' - 1 + 1 = lo' by ring]
+    have := sumRange_nonneg lo (lo' - 1) f hf
+    linarith
+  · rw [sumRange_empty _ _ _ (by omega)]; exact sumRange_nonneg _ _ _ hf
+
+theorem hyperPmf_off (N m n : ℕ) (k : ℤ) (h : k < hyperLo N m n ∨ hyperHi N m n < k) : hyperPmf N m n k = 0 := by
+  unfold hyperPmf; rw [if_neg (by omega)]
+
+theorem hyperCdf_unit (N m n : ℕ) (hm : m ≤ N) (hn : n ≤ N) (k : ℤ) : 0 ≤ hyperCdf N m n k ∧ hyperCdf N m n k ≤ 1 := by
+  unfold hyperCdf
+  refine ⟨sumRange_nonneg _ _ _ (hyperPmf_nonneg N m n), ?_⟩
+  rw [← hyper_sum_one N m n hm hn]
+  by_cases hk : k ≤ hyperHi N m n
+  · exact sumRange_mono_hi _ _ _ _ (hyperPmf_nonneg N m n) hk
+  · have hl : hyperLo N m n ≤ hyperHi N m n + 1 := by unfold hyperLo hyperHi; omega
+    rw [sumRange_split _ (hyperHi N m n) k _ hl (by omega),
+      sumRange_zero (hyperHi N m n + 1) k _ (fun i hi _ => hyperPmf_off N m n i (Or.inr (by omega))), add_zero]
+
+theorem hyperUpper_unit (N m n : ℕ) (hm : m ≤ N) (hn : n ≤ N) (k : ℤ) : 0 ≤ hyperUpper N m n k ∧ hyperUpper N m n k ≤ 1 := by
+  unfold hyperUpper
+  refine ⟨sumRange_nonneg _ _ _ (hyperPmf_nonneg N m n), ?_⟩
+  rw [← hyper_sum_one N m n hm hn]
+  by_cases hk : hyperLo N m n ≤ k
+  · exact sumRange_mono_lo _ _ _ _ (hyperPmf_nonneg N m n) hk
+  · have hl : hyperLo N m n ≤ hyperHi N m n + 1 := by unfold hyperLo hyperHi; omega
+    rw [sumRange_split k (hyperLo N m n - 1) _ _ (by omega) (by omega), show hyperLo N m n - 1 + 1 = hyperLo N m n by ring,
+      sumRange_zero k (hyperLo N m n - 1) _ (fun i _ hi => hyperPmf_off N m n i (Or.inl (by omega))), zero_add]
 
 end HailVerif.StatsProofs
